@@ -259,6 +259,9 @@ type windowMonitor struct {
 	// direction, lastRecv the time the last packet was handed over on a link.
 	lastNew  [2]int64
 	lastRecv [2]int64
+	// cumAck counts ACKs that acknowledged more than the window base (an
+	// earlier ACK was lost), nackBump NACKs that moved the base.
+	cumAck, nackBump int
 }
 
 // noNewSince reports whether the endpoint sending on direction d has made no
@@ -315,12 +318,21 @@ func (w *windowMonitor) observe(e vnet.TraceEvent) {
 		off := ((v-w.base[d]%s)%s + s) % s
 		if e.Type == "ACK" {
 			if off < size {
+				if off > 0 {
+					w.cumAck++
+				}
 				w.base[d] += off + 1
 			}
 		} else {
 			if v == w.top[d]%s {
+				if size > 0 {
+					w.nackBump++
+				}
 				w.base[d] = w.top[d]
 			} else if off < size {
+				if off > 0 {
+					w.nackBump++
+				}
 				w.base[d] += off
 			}
 		}
